@@ -66,6 +66,13 @@ func (d *Dir) Write(files map[string][]byte) error {
 		d.log.Infof("Written file %s", file)
 	}
 
+	// A previous Write that died or failed after creating the link and before
+	// renaming it leaves <target>.new behind. It is never the live target, and
+	// would make Symlink fail with EEXIST forever.
+	if err := os.Remove(d.target + ".new"); err != nil && !os.IsNotExist(err) {
+		return err
+	}
+
 	if err := os.Symlink(newDir, d.target+".new"); err != nil {
 		return err
 	}
